@@ -259,6 +259,7 @@ def _run_hyp(suite, tier, n, seed_val, known, stats):
 
     strat = suite.strategy(tier)
     last = {}
+    recent = []  # the cases this worker executed (in order): the history a history-dependent verdict depends on
 
     @hypothesis.seed(seed_val)
     @settings(
@@ -275,10 +276,13 @@ def _run_hyp(suite, tier, n, seed_val, known, stats):
     @given(strat)
     def prop(case):
         case = core.roundtrip(case)
+        if len(recent) > 400:
+            del recent[:100]
+        recent.append(case)  # every execution counts, also the failing ones: they moved the state as well
         try:
             execute(suite, case, known, stats)
         except Violation as v:
-            last['v'] = {'case': case, 'kind': v.kind, 'detail': v.detail}
+            last['v'] = {'case': case, 'kind': v.kind, 'detail': v.detail, 'before': len(recent) - 1}
             raise
         except HarnessError as e:
             last['h'] = str(e)
@@ -303,6 +307,9 @@ def _run_hyp(suite, tier, n, seed_val, known, stats):
                 return {'case': last['v']['case'], 'kind': v2.kind, 'detail': v2.detail, 'index': -1}
             except Exception:
                 pass
+            hist = _history_repro(suite, recent[:last['v'].get('before', len(recent))], last['v'], known)
+            if hist is not None:
+                return hist
             raise HarnessError('flaky case (non-deterministic verdict): %s; last=%s'
                                % (e, core.dumps(last['v'])[:2000]))
         raise HarnessError('hypothesis error %s: %s' % (type(e).__name__, e))
@@ -311,6 +318,51 @@ def _run_hyp(suite, tier, n, seed_val, known, stats):
             return dict(last['v'], index=-1)
         raise HarnessError('unexpected %s: %s' % (type(e).__name__, e))
     return None
+
+
+def _history_repro(suite, history, failing, known, budget_s=60):
+    """A verdict that a clean re-run does not reproduce may depend on what the long-lived objects (the code under
+    test keeps caches, class attributes, module state; suites keep one app per configuration) went through before.
+    Re-run the worker's preceding cases and then the failing one from a clean suite state; if the violation comes
+    back, minimise the history (drop blocks while it still reproduces) and report it with the history in the replay."""
+    def attempt(hist):
+        try:
+            suite.teardown()
+            suite.setup()
+            for c in hist:
+                try:
+                    execute(suite, c, known, None)
+                except Violation:
+                    pass
+            execute(suite, failing['case'], known, None)
+        except Violation as v:
+            return v
+        except Exception:
+            return None
+        return None
+
+    history = list(history)[-300:]
+    v = attempt(history)
+    if v is None:
+        return None
+    deadline = time.time() + budget_s
+    block = max(1, len(history) // 2)
+    while block >= 1 and time.time() < deadline:
+        i = 0
+        changed = False
+        while i < len(history) and time.time() < deadline:
+            cand = history[:i] + history[i + block:]
+            v2 = attempt(cand)
+            if v2 is not None and v2.kind == v.kind:
+                history, v, changed = cand, v2, True
+            else:
+                i += block
+        if block == 1 and not changed:
+            break
+        block = block // 2 if block > 1 else (1 if changed else 0)
+    return {'case': failing['case'], 'history': history, 'kind': v.kind, 'index': -1,
+            'detail': 'HISTORY-DEPENDENT (reproduces from a clean state only after the %d preceding case(s) stored in the replay): %s'
+                      % (len(history), v.detail)}
 
 
 # --------------------------------------------------------------- coverage-guided campaigns (Atheris)
@@ -444,6 +496,8 @@ def _write_replay(prop, suite_name, fail, tag=''):
     os.makedirs(d, exist_ok=True)
     body = {'property': prop, 'suite': suite_name, 'case': fail['case'],
             'violation': {'kind': fail['kind'], 'detail': fail['detail']}}
+    if fail.get('history'):
+        body['history'] = fail['history']
     text = core.dumps(body, indent=1)
     name = '%s%s-%s.json' % (tag, suite_name, hashlib.sha1(core.dumps(fail['case']).encode()).hexdigest()[:12])
     path = os.path.join(d, name)
@@ -493,6 +547,11 @@ def main(argv):
         suite = by_name[body['suite']]
         suite.setup()
         try:
+            for c in body.get('history') or []:
+                try:
+                    execute(suite, c, [], None)
+                except Violation:
+                    pass
             execute(suite, body['case'], [], None)
         except Violation as v:
             print('VIOLATION property=%s replay=%s' % (prop, os.path.abspath(argv[2])))
